@@ -35,7 +35,9 @@ pub const DEPTH_OPS: &[&str] = &[
 pub const SHAPES: &[&str] = &["arrays", "objects", "alternating"];
 pub const LADDER: &[u64] = &[1, 2, 10, 100, 1_000, 10_000, 100_000, 300_000];
 pub const STACKS: &[u64] = &[8 << 20, 2 << 20];
-pub const BUILDS: &[&str] = &["checked", "shipped"];
+/// dev = cargo's default dev profile (unoptimised, overflow checks, debug assertions: what `cargo build` and
+/// `cargo test` give a user); checked = optimised with the same checks; shipped = release defaults.
+pub const BUILDS: &[&str] = &["dev", "checked", "shipped"];
 
 pub const INDEX_OPS: &[&str] = &[
     "delete_by_index",
@@ -63,8 +65,8 @@ pub enum Case {
 }
 
 pub struct Limits {
-    /// smallest crashing depth recorded with each known finding (key -> depth)
-    pub floors: BTreeMap<String, u64>,
+    /// per known finding and build: the smallest crashing depth measured on a 1 MiB stack
+    pub floors: BTreeMap<String, BTreeMap<String, u64>>,
 }
 
 impl Limits {
@@ -75,14 +77,27 @@ impl Limits {
             if let Ok(j) = serde_json::from_str::<J>(&txt) {
                 for f in j["findings"].as_array().cloned().unwrap_or_default() {
                     if f["property"] == "C20" && f["status"] == "known" {
-                        if let (Some(k), Some(d)) = (f["key"].as_str(), f["min_crash_depth"].as_u64()) {
-                            floors.insert(k.to_string(), d);
+                        if let (Some(k), Some(d)) = (f["key"].as_str(), f["min_crash_depth_1mib"].as_object()) {
+                            let per: BTreeMap<String, u64> = d.iter().filter_map(|(b, v)| v.as_u64().map(|v| (b.clone(), v))).collect();
+                            floors.insert(k.to_string(), per);
                         }
                     }
                 }
             }
         }
         Limits { floors }
+    }
+
+    /// A recorded finding covers a crash only if it happens no earlier than half the depth expected
+    /// for this build and stack (crash depth grows linearly with the stack budget).
+    fn covered(&self, key: &str, build: &str, stack: u64, depth: u64) -> bool {
+        match self.floors.get(key).and_then(|per| per.get(build)) {
+            Some(floor) => {
+                let expected = (*floor as u128 * stack as u128 / (1u128 << 20)) as u64;
+                depth.saturating_mul(2) >= expected
+            }
+            None => false,
+        }
     }
 }
 
@@ -458,7 +473,7 @@ fn build_exe(build: &str) -> Result<std::path::PathBuf, String> {
     let me = std::env::current_exe().map_err(|e| e.to_string())?;
     // .../target/<profile>/sim
     let target = me.parent().and_then(|p| p.parent()).ok_or("cannot locate target dir")?;
-    let p = target.join(build).join("sim");
+    let p = target.join(if build == "dev" { "debug" } else { build }).join("sim");
     if !p.exists() {
         return Err(format!("{} is missing: run `/verif/check build`", p.display()));
     }
@@ -599,7 +614,7 @@ pub fn floors_main() -> i32 {
         for shape in SHAPES {
             let (op, shape) = (op.to_string(), shape.to_string());
             handles.push(std::thread::spawn(move || {
-                let mut best: Option<(u64, String)> = None;
+                let mut per = serde_json::Map::new();
                 for build in BUILDS {
                     let crashes = |d: u64| -> bool {
                         let c = Case::Depth { op: op.clone(), shape: shape.clone(), depth: d, stack: 1 << 20, build: build.to_string() };
@@ -618,19 +633,21 @@ pub fn floors_main() -> i32 {
                             lo = mid;
                         }
                     }
-                    if best.as_ref().map_or(true, |(d, _)| hi < *d) {
-                        best = Some((hi, build.to_string()));
-                    }
+                    per.insert(build.to_string(), json!(hi));
                 }
-                (op, shape, best)
+                (op, shape, per)
             }));
         }
     }
     for h in handles {
-        if let Ok((op, shape, Some((d, build)))) = h.join() {
-            rows.push(json!({"property": "C20", "key": format!("stack_overflow:{op}:{shape}"), "status": "known", "min_crash_depth": d,
-                "what": format!("{op} on {shape} nested {d} levels deep (1 MiB stack, {build} build; deeper on larger stacks) dies of stack exhaustion: unbounded recursion on nesting depth"),
-                "repro": format!("sim limits-child '{{\"kind\":\"depth\",\"op\":\"{op}\",\"shape\":\"{shape}\",\"depth\":{d},\"stack_bytes\":1048576,\"build\":\"{build}\"}}'")}));
+        if let Ok((op, shape, per)) = h.join() {
+            if per.is_empty() {
+                continue;
+            }
+            let least = per.values().filter_map(|v| v.as_u64()).min().unwrap_or(0);
+            rows.push(json!({"property": "C20", "key": format!("stack_overflow:{op}:{shape}"), "status": "known", "min_crash_depth_1mib": per,
+                "what": format!("{op} on {shape} nested {least} or more levels deep (1 MiB stack; proportionally deeper on larger stacks) dies of stack exhaustion: unbounded recursion on nesting depth"),
+                "repro": format!("sim limits-child '{{\"kind\":\"depth\",\"op\":\"{op}\",\"shape\":\"{shape}\",\"depth\":300000,\"stack_bytes\":1048576,\"build\":\"shipped\"}}'")}));
         }
     }
     for r in &rows {
@@ -718,9 +735,18 @@ impl Scenario for Limits {
             (ChildOutcome::Result(r), _) => (r.split(':').next().unwrap_or("?").to_string() + if r.ends_with("differs_from_model") { ":differs_from_model" } else { "" }, None),
             (ChildOutcome::StackOverflow, Case::Depth { op, shape, depth, .. }) => {
                 let key = format!("stack_overflow:{op}:{shape}");
-                let class = match self.floors.get(&key) {
-                    Some(floor) if *depth * 2 < *floor => format!("stack_overflow_much_earlier:{op}:{shape}"),
-                    _ => key,
+                let build = match case {
+                    Case::Depth { build, .. } => build.as_str(),
+                    _ => "",
+                };
+                let stack = match case {
+                    Case::Depth { stack, .. } => *stack,
+                    _ => 0,
+                };
+                let class = if !self.floors.contains_key(&key) || self.covered(&key, build, stack, *depth) {
+                    key
+                } else {
+                    format!("stack_overflow_much_earlier_than_recorded:{op}:{shape}:{build}")
                 };
                 ("stack_overflow".into(), Some(Viol { class, detail: format!("the process died of stack exhaustion at nesting depth {depth}") }))
             }
@@ -827,9 +853,9 @@ impl Scenario for Limits {
 
     fn rule(&self) -> String {
         "One child process per case. Depth cases: operations {parse, drop, encode, decode x2, render x2, compare, path query x4, path parse} x shapes {arrays, objects, alternating} x \
-         the depth ladder {1,2,10,100,1e3,1e4,1e5,3e5} x stack budgets {8 MiB, 2 MiB} x builds {checked = overflow-checks+debug-assertions, shipped = release defaults}, all enumerated, \
+         the depth ladder {1,2,10,100,1e3,1e4,1e5,3e5} x stack budgets {8 MiB, 2 MiB} x builds {dev = unoptimised with overflow checks and debug assertions, checked = optimised with the same checks, shipped = release defaults}, all enumerated, \
          plus seeded log-uniform depths between the rungs with stacks {1,2,4,8 MiB}. Extreme-argument cases: {delete_by_index, array_insert, delete_by_keypath, get_by_keypath, $[i], \
-         $[last-i], $[last+i], $[a to b]} x {MIN, MIN+1, -len-1, -len, -1, 0, len-1, len, len+1, MAX-1, MAX} x len {0,1,3} x {JSONB, JSON text} x both builds, all enumerated, plus seeded i32s. \
+         $[last-i], $[last+i], $[a to b]} x {MIN, MIN+1, -len-1, -len, -1, 0, len-1, len, len+1, MAX-1, MAX} x len {0,1,3} x {JSONB, JSON text} x all three builds, all enumerated, plus seeded i32s. \
          distinct_nontrivial = distinct cases with depth >= 2 or an index outside -len..len."
             .into()
     }
@@ -838,7 +864,7 @@ impl Scenario for Limits {
         vec![
             "stack budgets 8 MiB (main-thread default) and 2 MiB (Rust's spawned-thread default), plus 1 and 4 MiB in seeded cases; the largest input is about 4 MB".into(),
             "to_pretty_string is exercised only up to 20,000 levels because its output is quadratic in depth".into(),
-            "a known stack-exhaustion finding covers crashes at depths down to half its recorded smallest crashing depth; a crash much earlier is reported as a new violation".into(),
+            "a known stack-exhaustion finding records, per build, the smallest crashing depth on a 1 MiB stack; it covers a crash only at or beyond half the depth expected for the case's build and stack (linear in the stack budget); an earlier crash is reported as a new violation".into(),
             "extreme-index results are compared with the tree model for the record only; the property judges crash vs no crash".into(),
         ]
     }
